@@ -188,10 +188,10 @@ Section Exact.
     destruct (pp_loop_exact possible _ rf all [] _ st Hsub eq_refl Hi0 El) as (G1 & [n Hn] & Hc & Hnd).
     pose proof (pp_loop_queue _ _ _ _ _ _ El) as Q1. cbn [pp_c] in Q1.
     assert (Hfin : forall c2 (b : bool), exact_c c2 -> cv_queue c2 = cv_queue c ->
-              (if b then Ok (set_cv_queue (filter (fun qd => negb (q_press qd && mem_n (snd (q_coord qd)) (pp_acc st))) (cv_queue c2)) c2)
+              (if b then Ok (set_cv_queue (filter (fun qd => negb (q_press qd && mem_n (snd (q_coord qd)) (pp_acc st))) (cv_queue c2)) (set_cv_until 0 c2))
                else Ok c2) = Ok c' -> exact_c c' /\ consumed_prefix c c').
     { intros c2 b G Q X. destruct b; injection X as <-; (split; [exact G|]).
-      - right. exists n. cbn [set_cv_queue cv_queue]. rewrite Q, Hn. reflexivity.
+      - right. exists n. cbn [set_cv_queue set_cv_until cv_queue]. rewrite Q, Hn. reflexivity.
       - left. exact Q. }
     destruct ((cv_until_change (pp_c st) =? 0) || rf).
     - destruct (find _ _) as [cch|] eqn:Ef.
